@@ -73,7 +73,13 @@ class ConstantOperator(Operator):
         if x.jac is not None:
             jac = NullOperator(self._domain, self._target,
                                x.device_id, self._output.device_id)
-            return x.new(self._output, jac)
+            met = None
+            if x.want_metric:
+                # A constant carries no information; without this a constant
+                # summand would discard the metric of the whole sum
+                met = NullOperator(self._domain, self._domain,
+                                   x.device_id, x.device_id)
+            return x.new(self._output, jac, met)
         return self._output
 
     def __repr__(self):
